@@ -30,9 +30,15 @@ inductive St | recStart | fieldStart | unq | quoted | qseen
 inductive CsvErr | bareQuote | quote | fieldCount
   deriving DecidableEq, Repr
 
+/-- result of the reader (an `Except` with decidable equality) -/
+inductive Res (α : Type) where
+  | ok (a : α)
+  | error (e : CsvErr)
+  deriving DecidableEq, Repr
+
 /-- The byte machine. `cur` is the current field reversed, `fs` the fields of the current record
 reversed, `rs` the finished records reversed. -/
-def machine : St → List UInt8 → List Str → List (List Str) → List UInt8 → Except CsvErr (List (List Str))
+def machine : St → List UInt8 → List Str → List (List Str) → List UInt8 → Res (List (List Str))
   -- end of input
   | .recStart, _, _, rs, [] => .ok rs.reverse
   | .fieldStart, _, fs, rs, [] => .ok (([] :: fs).reverse :: rs).reverse
@@ -70,7 +76,7 @@ def fieldCountOk : List (List Str) → Bool
   | r :: rs => rs.all (fun x => x.length == r.length)
 
 /-- all records of the input, or the reader's error -/
-def readAll (bytes : List UInt8) : Except CsvErr (List (List Str)) :=
+def readAll (bytes : List UInt8) : Res (List (List Str)) :=
   match machine .recStart [] [] [] (normalise bytes) with
   | .error e => .error e
   | .ok rs => if fieldCountOk rs then .ok rs else .error .fieldCount
